@@ -567,14 +567,75 @@ func runCLONE(c *Ctx) {
 		if !rec {
 			c.Violation(toShared, P.Pos(toShared.Pos()), "ToShared does not deep-copy unshared children", "unshared child nodes stay referenced by both trees: a later in-place edit through one tree shows in the clone")
 		}
-		// skipping a *mastNode child is allowed only when it is shared
+		// skipping a *mastNode child is allowed only when it is shared: from the
+		// type-switch case of an in-memory child, every way out of the case body
+		// either stores the recursive result or is the edge `child.shared == true`.
 		for _, b := range toShared.Blocks {
 			for _, ins := range b.Instrs {
-				ta, ok := ins.(*ssa.TypeAssert)
-				if !ok || !isNodePtr(ta.AssertedType) {
+				ex, ok := ins.(*ssa.Extract)
+				if !ok || ex.Index != 0 {
 					continue
 				}
-				_ = ta
+				ta, ok := ex.Tuple.(*ssa.TypeAssert)
+				if !ok || !ta.CommaOk || !isNodePtr(ta.AssertedType) {
+					continue
+				}
+				// the case body: successor taken when ok is true
+				var body *ssa.BasicBlock
+				if iff, isIf := b.Instrs[len(b.Instrs)-1].(*ssa.If); isIf {
+					if okv, isEx := iff.Cond.(*ssa.Extract); isEx && okv.Tuple == ssa.Value(ta) && okv.Index == 1 {
+						body = b.Succs[0]
+					}
+				}
+				if body == nil {
+					continue
+				}
+				storeBlocks := map[*ssa.BasicBlock]bool{}
+				for _, w := range A.Writes {
+					if w.Fn == toShared && w.Field == "Link" && w.Kind == "elem" {
+						if ex2, ok := ir.Strip(w.Instr.(*ssa.Store).Val).(*ssa.Extract); ok {
+							if call, ok := ex2.Tuple.(*ssa.Call); ok && call.Call.StaticCallee() == toShared && ir.Strip(call.Call.Args[0]) == ssa.Value(ex) {
+								storeBlocks[w.Instr.Block()] = true
+							}
+						}
+					}
+				}
+				reach := ir.ReachableFrom(body, func(from, to *ssa.BasicBlock) bool {
+					if storeBlocks[to] {
+						return true
+					}
+					// the edge taken when child.shared is true
+					if len(from.Instrs) > 0 {
+						if iff, ok := from.Instrs[len(from.Instrs)-1].(*ssa.If); ok {
+							cond, truth := iff.Cond, true
+							if u, ok := cond.(*ssa.UnOp); ok && u.Op == token.NOT {
+								cond, truth = u.X, false
+							}
+							if ld, ok := cond.(*ssa.UnOp); ok && ld.Op == token.MUL {
+								if fa, ok := ld.X.(*ssa.FieldAddr); ok && ir.FieldName(fa.X.Type(), fa.Field) == "shared" && fa.X == ssa.Value(ex) {
+									if (truth && to == from.Succs[0]) || (!truth && to == from.Succs[1]) {
+										return true
+									}
+								}
+							}
+						}
+					}
+					return false
+				})
+				escaped := false
+				for rb := range reach {
+					if rb != body && !body.Dominates(rb) {
+						escaped = true
+					}
+				}
+				if storeBlocks[body] {
+					escaped = false
+				}
+				if escaped {
+					c.Violation(toShared, P.InstrPos(ta), "unshared child skipped by ToShared", "an in-memory child that is not shared can be left in the copy without going through ToShared: the clone and the original keep a common mutable node")
+				} else {
+					c.OK(P.InstrPos(ta), "in-memory children of the copy", "every *mastNode child either is shared or is replaced by its ToShared", false)
+				}
 			}
 		}
 	}
